@@ -334,6 +334,9 @@ func newEventFromUntrustedJSONV1(eventJSON []byte, roomVersion IRoomVersion) (PD
 	if err := checkID(res.eventFields.RoomID, "room", '!'); err != nil {
 		return nil, err
 	}
+	if err := checkValidRoomID(res.eventFields.RoomID); err != nil {
+		return nil, err
+	}
 
 	// We know the JSON must be valid here.
 	eventJSON = CanonicalJSONAssumeValid(eventJSON)
@@ -382,6 +385,9 @@ func newEventFromTrustedJSONV1(eventJSON []byte, redacted bool, roomVersion IRoo
 	if err := checkID(res.eventFields.RoomID, "room", '!'); err != nil {
 		return nil, fmt.Errorf("RoomID is invalid: %w", err)
 	}
+	if err := checkValidRoomID(res.eventFields.RoomID); err != nil {
+		return nil, err
+	}
 
 	res.eventJSON = eventJSON
 	res.roomVersion = roomVersion.Version()
@@ -396,6 +402,9 @@ func newEventFromTrustedJSONWithEventIDV1(eventID string, eventJSON []byte, reda
 	}
 
 	if err := checkID(res.eventFields.RoomID, "room", '!'); err != nil {
+		return nil, err
+	}
+	if err := checkValidRoomID(res.eventFields.RoomID); err != nil {
 		return nil, err
 	}
 
